@@ -397,10 +397,14 @@ func c08EvalValue(c c08Cond, v c811Val) c08Tri {
 				case "i":
 					return c08Bool(c08CmpOp(c.Op, c08Cmp(v.I, cv.I)))
 				case "f":
-					if cv.F != math.Trunc(cv.F) || math.Abs(cv.F) >= 1<<53 || v.I >= 1<<53 || v.I <= -(1<<53) {
-						return c08DC // 1 vs 1.5: compare as numbers, or convert 1.5 to the span's type first?
+					// numeric span value, numeric Value: compared as numbers (7 < 7.5). "Convert the Value to the same
+					// type" is read as "to a number", not as truncation: truncating is documented for Datatype int only,
+					// and the same number must not compare differently depending on whether it arrived as an integer
+					// or as a float (C09). Beyond 2^53 the two readings cannot be told apart exactly: open.
+					if math.IsNaN(cv.F) || math.IsInf(cv.F, 0) || math.Abs(cv.F) >= 1<<53 || v.I >= 1<<53 || v.I <= -(1<<53) {
+						return c08DC
 					}
-					return c08Bool(c08CmpOp(c.Op, c08Cmp(v.I, int64(cv.F))))
+					return c08Bool(c08CmpOp(c.Op, c08Cmp(float64(v.I), cv.F)))
 				}
 				return c08DC // string or bool Value against a number: "attempts to convert"
 			case "f":
